@@ -40,6 +40,10 @@ def cut_features(g, part, case):
         f.add('multi_desc_atom')
     if any(v >= 2 for v in case['cutcount'].values()):
         f.add('base_order_ge2')
+    if len(case['members']) >= 10:
+        f.add('ten_or_more_fragments')
+    if any(len(m) >= 10 for m in case['members'].values()):
+        f.add('fragment_with_ten_or_more_atoms')
     base = case['base']
     if base.number_of_edges() >= len(base) and len(base) > 0:
         f.add('base_ring')
@@ -82,7 +86,9 @@ def random_cut_case(rng, max_heavy, kinds=('$', '><'), max_parts=6, mol_kw=None,
     else:
         keep = False
         g = M.gen_molecule(rng, max_heavy=max_heavy, p_ring=rng.choice([0.25, 0.5]), **(mol_kw or {}))
-        nparts = rng.randint(1, min(len(g), max_parts))
+        # now and then many small fragments: ten or more coarse nodes give two-digit keys, names F1 / F10 ...
+        cap = max_parts if rng.random() < 0.85 else max(max_parts, 14)
+        nparts = rng.randint(1, min(len(g), cap))
     part = M.partition(rng, g, k=nparts, keep_rings=keep)
     nparts = max(part.values()) + 1
     case = M.build_case(rng, g, part, kinds=kinds, render_opts=render_opts or {'explicit_single': rng.choice([0.0, 0.1]), 'desc_after_branch': rng.choice([0.0, 0.0, 0.5])})
